@@ -110,5 +110,25 @@ for trial in range(400):
         setup_tunables(inst, f"c12_{trial}")
         if list(inst.state_names) != order: fail(f"state_names {list(inst.state_names)} != {order} (base-class states first, definition order): {layout}")
         if list(inst.state_descriptions) != [f"doc of {eff[s][2]}.{s}" for s in order]: fail(f"state_descriptions not aligned: {list(inst.state_descriptions)}: {layout}")
+# 5. a base machine instantiated first, then a subclass that adds states: each class lists exactly its own states
+class BaseM(StateMachine):
+    @state(first=True)
+    def b_first(self): "doc b_first"
+    @state
+    def b_second(self): "doc b_second"
+class DerivedM(BaseM):
+    @state
+    def d_extra(self): "doc d_extra"
+bm = BaseM(); setup_tunables(bm, "c12_base")
+dm = DerivedM(); setup_tunables(dm, "c12_derived")
+bm2 = BaseM(); setup_tunables(bm2, "c12_base2")
+n += 3
+if list(dm.state_names) != ["b_first", "b_second", "d_extra"] or list(dm.state_descriptions) != ["doc b_first", "doc b_second", "doc d_extra"]:
+    fail(f"subclass instantiated after its base lists {list(dm.state_names)} / {list(dm.state_descriptions)}")
+if list(bm2.state_names) != ["b_first", "b_second"]: fail(f"base class instantiated after its subclass lists {list(bm2.state_names)}")
+# 6. illegal parameter kinds carrying legal names
+for bad in (["self", "*tm"], ["self", "**state_tm"], ["self", "*", "initial_call"], ["*self"]):
+    n += 1
+    if not raises(ValueError, lambda: state(mkfn("st_z", bad))): fail(f"illegal signature {bad} accepted")
 print("not reproduced in", n, "definitions")
 print("STANDIN-JSON " + json.dumps({"bounded": True, "evaluations": n, "bound": "every dir(StateMachine) name; 16 ordered parameter subsets x 4 decorators; 8 illegal signatures; 400 random single/linear/diamond/mixin hierarchies of <= 4 classes x <= 3 states"}))
